@@ -17,9 +17,15 @@
 (*     Complete(c)  reply handled, curr advanced, result returned, mutex released              *)
 (* P-level (property C34): no value is issued twice, the values of one allocator increase      *)
 (* strictly, and a call whose fetch did not return a well-formed row with a positive           *)
-(* increment fails.  Strict = TRUE is the intended reply handling (malformed => error);        *)
-(* Strict = FALSE is the reply handling of mysql.go:102-103 (ParseInt errors dropped, no sign   *)
-(* check) and is only used to produce candidates.                                              *)
+(* increment fails.  Strict = TRUE is the reply handling of the code since fix d955582           *)
+(* (malformed row => error); Strict = FALSE is the handling before it (ParseInt errors dropped,  *)
+(* no sign check), kept for reference only.                                                     *)
+(* HoldLock = TRUE is the code: the mutex covers the fetch.  HoldLock = FALSE is a deliberately  *)
+(* weaker algorithm (a session that has to fetch does not hold the mutex until the reply is      *)
+(* installed); it violates the property, and its counterexamples are used as PROBE schedules:    *)
+(* the harness tries to impose them on the real allocator, which must refuse the overlap (the    *)
+(* second session blocks on the mutex) - if it does not, the property is judged on the values    *)
+(* it hands out.                                                                                 *)
 EXTENDS Integers, Sequences, FiniteSets
 
 CONSTANTS Allocs,      \* allocator ids, e.g. {"a1","a2"}
@@ -29,6 +35,7 @@ CONSTANTS Allocs,      \* allocator ids, e.g. {"a1","a2"}
           MaxReq,      \* bound on the number of NextSeq calls (model checking only)
           MaxLimit,    \* MySQLSequence.maxLimit, 0 = unlimited
           Strict,      \* BOOLEAN, see above
+          HoldLock,    \* BOOLEAN, see above
           Outcomes     \* fetch outcome classes the environment may choose from
 
 VARIABLES dbcur,       \* current_value of the row
@@ -111,8 +118,9 @@ Start_(c) == /\ pc[c] = "idle"
 
 Begin(c) == /\ pc[c] = "started"
             /\ lock[A(c)] = NoOne
-            /\ lock' = [lock EXCEPT ![A(c)] = c]
-            /\ pc' = [pc EXCEPT ![c] = IF curr[A(c)] >= max[A(c)] THEN "fetch" ELSE "issue"]
+            /\ LET f == curr[A(c)] >= max[A(c)] IN
+                 /\ pc' = [pc EXCEPT ![c] = IF f THEN "fetch" ELSE "issue"]
+                 /\ lock' = IF f /\ ~HoldLock THEN lock ELSE [lock EXCEPT ![A(c)] = c]
             /\ UNCHANGED <<dbcur, dbinc, broken, curr, max, resp, fo, pvars, nreq>>
 
 Fetch(c, o) == /\ pc[c] = "fetch"
@@ -133,6 +141,7 @@ Result(c) == IF Fails(c) \/ Limited(c) THEN [ok |-> FALSE, v |-> 0] ELSE [ok |->
 
 Complete(c) ==
     /\ pc[c] \in {"got", "issue"}
+    /\ lock[A(c)] \in {NoOne, c}              \* (re-)acquire the mutex; always true when HoldLock
     /\ LET a == A(c)
            r == Result(c)
        IN /\ IF Fails(c)
@@ -161,8 +170,8 @@ Spec == Init /\ [][Next]_vars
 (* Properties (C34). *)
 TypeOK == /\ lock \in [Allocs -> Callers \cup {NoOne}]
           /\ pc \in [Callers -> {"idle", "started", "fetch", "got", "issue"}]
-          /\ \A a \in Allocs : Cardinality({c \in Callers : A(c) = a /\ pc[c] \in {"fetch", "got", "issue"}}) <= 1
-          /\ \A c \in Callers : pc[c] \in {"fetch", "got", "issue"} <=> lock[A(c)] = c
+          /\ HoldLock => \A a \in Allocs : Cardinality({c \in Callers : A(c) = a /\ pc[c] \in {"fetch", "got", "issue"}}) <= 1
+          /\ HoldLock => \A c \in Callers : pc[c] \in {"fetch", "got", "issue"} <=> lock[A(c)] = c
 
 Distinct      == ~dup        \* no value handed out twice, across all allocators
 Increasing    == ~nonmono    \* per allocator strictly increasing
